@@ -71,3 +71,213 @@ def _e_interchange(interp, args, kwargs, result):
 
 contract('rewriting.interchange', spec=SPEC_INTERCHANGE, params=_p_interchange, ensures=_e_interchange,
          on_raise=lambda *a: None, property_ids=('C05', 'C01'))
+
+
+# ------------------------------------------------------------------ call-site (abstract) contract of interchange
+#
+# Callers (normalize, foliate, unsnake, the recursive loops of interchange itself) do not get the body: they get a
+# fresh well-formed diagram R with the same dom / cod / number of boxes, related to the argument by the functional
+# spec of the adjacent move (R's two layers are the interchanged pair, every other layer is unchanged).  wf(R) is the
+# discharged `ensures` of the contract above; the equalities are the discharged `result == spec` obligations.
+
+_fresh = [0]
+
+
+def _abstract_interchange(interp, args, kwargs):
+    ex = interp.ex
+    w = interp.world
+    self, i, j = args[0], args[1], args[2]
+    left = kwargs.get('left', args[3] if len(args) > 3 else VBool(False))
+    self = w.as_diagram(self)
+    # the spec decides the exceptions and gives the two new layers
+    w.spec_mode += 1
+    try:
+        c = CONTRACTS['rewriting.interchange']
+        S = interp.call_function(c.spec_node(), Env(None, {}), [self, i, j, left], {}, 'spec:rewriting.interchange')
+    finally:
+        w.spec_mode -= 1
+    if S is self:
+        return self
+    _fresh[0] += 1
+    name = 'ichg%d' % _fresh[0]
+    n = self.boxes.length()
+    R = ex.sym_diagram(T.fresh_name(name), wf=True, n=n, dom=self.dom.t, cod=self.cod.t, global_inst=True)
+    Rl, Rb, Rr = R._fns
+    if getattr(S, '_far', False):
+        # distant move: only the frame is promised (boxes moved, layers outside [lo, hi] unchanged)
+        lo, hi = S._lo, S._hi
+        src = S._src
+
+        def frame(k):
+            out = []
+            inside = z3.And(0 <= k, k < n)
+            sl = ex_total_layer(self, k)
+            if sl is not None:
+                out.append((z3.And(inside, z3.Or(k < lo, k > hi)),
+                            z3.And(Rl(k) == sl.left.t, Rb(k) == sl.box.t, Rr(k) == sl.right.t)))
+            return out
+        ex.add_qhyp(None, frame)
+        return R
+    lo = z3.If(i.t < j.t, i.t, j.t)
+    lo = z3.simplify(lo)
+    new1 = ex.list_at(S.layers.boxes, lo)
+    new0 = ex.list_at(S.layers.boxes, z3.simplify(lo + 1))
+    ex.assume(z3.And(Rl(lo) == new1.left.t, Rb(lo) == new1.box.t, Rr(lo) == new1.right.t))
+    ex.assume(z3.And(Rl(lo + 1) == new0.left.t, Rb(lo + 1) == new0.box.t, Rr(lo + 1) == new0.right.t))
+
+    def frame(k):
+        sl = ex_total_layer(self, k)
+        if sl is None:
+            return []
+        return [(z3.And(0 <= k, k < n, z3.Or(k < lo, k > lo + 1)),
+                 z3.And(Rl(k) == sl.left.t, Rb(k) == sl.box.t, Rr(k) == sl.right.t))]
+    ex.add_qhyp(None, frame)
+    return R
+
+
+def ex_total_layer(d, k):
+    """layer k of a diagram whose layer list is one atomic symbolic list (total element function)"""
+    segs = d.layers.boxes.segs
+    if len(segs) == 1 and segs[0][0] == 'sub' and T.int_val(segs[0][2]) == 0:
+        return segs[0][1]._elem(k)
+    return None
+
+
+from pyvc.interp import Env, PyRaise   # noqa: E402
+CONTRACTS['rewriting.interchange'].abstract = _abstract_interchange
+
+
+# ------------------------------------------------------------------ normalize (C06)
+#
+# Obligations taken from the property: every yielded diagram is exactly one legal interchange of its predecessor in the
+# requested direction (the call cannot raise: the guard just evaluated implies the callee's geometric condition, and the
+# flag passed selects that branch); it is well-typed with the input's dom and cod; when the generator is exhausted no
+# adjacent pair satisfies the rewrite condition (fixed point).  Termination and canonicity are whole-history properties
+# (bounded stand-in).
+
+def _guard(d, t, left):
+    Ll, Lb, Lr = d._fns
+    off0, off1 = z3.Length(Ll(t)), z3.Length(Ll(t + 1))
+    return z3.Or(z3.And(left, off1 >= off0 + z3.Length(T.bcod(Lb(t)))),
+                 z3.And(z3.Not(left), off0 >= off1 + z3.Length(T.bdom(Lb(t + 1)))))
+
+
+def _p_normalize(ex):
+    d = ex.sym_diagram('self', wf=True, global_inst=True)
+    left = ex.sym_bool('left')
+    return [d], {'left': left}
+
+
+def _fresh_like(interp, env, tag):
+    ex = interp.ex
+    self = env.lookup('self')
+    return ex.sym_diagram(T.fresh_name(tag), wf=True, n=self.boxes.length(), dom=self.dom.t, cod=self.cod.t,
+                          global_inst=True)
+
+
+def _check_is_wf_like(interp, env, label):
+    ex = interp.ex
+    self, d = env.lookup('self'), interp.world.as_diagram(env.lookup('diagram'))
+    ex.prove(label + ':diagram keeps dom', T.ty_eq(d.dom.t, self.dom.t))
+    ex.prove(label + ':diagram keeps cod', T.ty_eq(d.cod.t, self.cod.t))
+    ex.prove(label + ':diagram keeps len', d.boxes.length() == self.boxes.length())
+    prove_wf(ex, label, d)
+
+
+def _outer_assume(interp, env, k, seq=None, at_exit=False):
+    env.set('diagram', _fresh_like(interp, env, 'sweep'))
+
+
+def _outer_check(interp, env, k, label, seq=None):
+    _check_is_wf_like(interp, env, label)
+
+
+def _inner_assume(interp, env, k, seq, at_exit):
+    ex = interp.ex
+    d = _fresh_like(interp, env, 'cur')
+    nmm = T.fresh('no_more_moves', T.BoolS)
+    left = env.lookup('left').t
+    n = d.boxes.length()
+    ex.add_qhyp(None, lambda t: [(z3.And(nmm, 0 <= t, t < k, t + 1 < n), z3.Not(_guard(d, t, left)))])
+    env.set('diagram', d)
+    env.set('__cur', d)
+    env.set('no_more_moves', VBool(nmm))
+
+
+def _inner_check(interp, env, k, label, seq):
+    ex = interp.ex
+    _check_is_wf_like(interp, env, label)
+    d = interp.world.as_diagram(env.lookup('diagram'))
+    if not hasattr(d, '_fns'):
+        ex.prove(label + ':diagram is a tracked well-formed diagram', False)
+        return
+    nmm = env.lookup('no_more_moves').t
+    left = env.lookup('left').t
+    n = d.boxes.length()
+
+    def no_move_before(t):
+        ex.assume(nmm)
+        ex.assume(t + 1 < n)
+        ex.touched.setdefault(-1, (None, {}))[1][z3.simplify(t).sexpr()] = t
+        ex.prove(label + ':no_more_moves implies no earlier pair satisfies the rewrite condition', z3.Not(_guard(d, t, left)))
+    ex.forall(k, no_move_before)
+
+
+def _outer_break(interp, env):
+    """`if no_more_moves: break`: the generator is exhausted, no adjacent pair satisfies the rewrite condition"""
+    ex = interp.ex
+    d = interp.world.as_diagram(env.lookup('diagram'))
+    left = env.lookup('left').t
+    n = d.boxes.length()
+    if not hasattr(d, '_fns'):
+        ex.prove('C06:exit.diagram is tracked', False)
+        return
+
+    def fixed(t):
+        ex.assume(t + 1 < n)
+        ex.touched.setdefault(-1, (None, {}))[1][z3.simplify(t).sexpr()] = t
+        ex.prove('C06:exit is a fixed point (no adjacent pair satisfies the rewrite condition)', z3.Not(_guard(d, t, left)))
+    ex.forall(n, fixed)
+
+
+_NORM_OUTER = LoopSpec(assume=_outer_assume, check=_outer_check)
+_NORM_OUTER.break_ok = True
+_NORM_OUTER.on_break = _outer_break
+_NORM_INNER = LoopSpec(assume=_inner_assume, check=_inner_check)
+
+
+def _y_normalize(interp, env, value, args):
+    """at every `yield diagram`"""
+    ex = interp.ex
+    self = args[0]
+    value = interp.world.as_diagram(value)
+    ex.prove('C06:yield keeps dom', T.ty_eq(value.dom.t, self.dom.t))
+    ex.prove('C06:yield keeps cod', T.ty_eq(value.cod.t, self.cod.t))
+    prove_wf(ex, 'C01:normalize.yield', value)
+    # exactly the interchange of the predecessor at (i, i + 1) in the requested direction, and that move is legal
+    prev, i, left = env.lookup('__cur'), env.lookup('i'), env.lookup('left')
+    w = interp.world
+    w.spec_mode += 1
+    try:
+        c = CONTRACTS['rewriting.interchange']
+        try:
+            want = interp.call_function(c.spec_node(), Env(None, {}), [prev, i, VInt(z3.simplify(i.t + 1)), left], {},
+                                        'spec:rewriting.interchange')
+        except PyRaise as e:
+            ex.prove('C06:the requested interchange is legal (contract raises %s)' % e.exc, False)
+            return
+    finally:
+        w.spec_mode -= 1
+    ex.prove_equal('C06:yield is the interchange of its predecessor at (i, i+1) in the requested direction', value, want)
+
+
+def _e_normalize(interp, args, kwargs, result):
+    """the generator is exhausted: fixed point"""
+    ex = interp.ex
+    # `diagram` at exit is not visible here; the fixed-point obligation is emitted by the exit hook below
+    pass
+
+
+contract('rewriting.normalize', params=_p_normalize, ensures=_e_normalize, loops={0: _NORM_OUTER, 1: _NORM_INNER},
+         property_ids=('C06', 'C01'))
+CONTRACTS['rewriting.normalize'].on_yield = _y_normalize
